@@ -29,7 +29,19 @@ package iter
 //@ at return assert value-is-the-hash-of-the-link-that-was-stepped-over: v != nil ==> next != nil && v.x == next.Hash.x
 //@ at return assert key-is-that-links-own-name: k != nil && next != nil && next.Name.m == 2 && itr.transformName == nil ==> k.x == next.Name.v.x
 
+
+// The constructors wrap exactly the link iterator and the name transformer they are given.
+//@ func iter.NewUnixFSDirMapIterator
+//@ prop C02 C15
+//@ ensures wraps-what-it-is-given: result != nil && fresh(result) && typeis(result, "*iter.UnixFSDir__MapItr") && result.(*iter.UnixFSDir__MapItr)._substrate == itr && result.(*iter.UnixFSDir__MapItr).transformName == transformName
+//@ func iter.NewUnixFSDirIterator
+//@ prop C02 C15
+//@ ensures wraps-what-it-is-given: result != nil && fresh(result) && result._substrate == itr && result.transformName == transformName
+
+// A directory iterator is done exactly when the link iterator it wraps is.
 //@ func (*iter.UnixFSDir__MapItr).Done
-//@ prop C15
+//@ prop C02 C15
+//@ at call (iter.pbLinkItr).Done#1 assert asks-the-wrapped-iterator: callee_recv == itr._substrate
 //@ func (*iter.UnixFSDir__Itr).Done
-//@ prop C15
+//@ prop C02 C15
+//@ at call (iter.pbLinkItr).Done#1 assert asks-the-wrapped-iterator: callee_recv == itr._substrate
